@@ -137,6 +137,14 @@ Theorem c07_first_step_unique : forall n T A,
 Proof. exact first_step_unique. Qed.
 Print Assumptions c07_first_step_unique.
 
+(* "Ergodic matrix, non-empty sets" gives the reachability hypothesis used above: in an irreducible
+   chain every state reaches every non-empty set. *)
+Theorem c07_irreducible_reaches : forall n T,
+  (forall i j, (i < n)%nat -> (j < n)%nat -> reaches n T [j] i) ->
+  forall A a, In a A -> (a < n)%nat -> forall i, (i < n)%nat -> reaches n T A i.
+Proof. exact irreducible_reaches. Qed.
+Print Assumptions c07_irreducible_reaches.
+
 (* ---- Non-vacuity: a non-reversible irreducible 4-state chain with zeros, one source, two sinks,
    meets every hypothesis above, and the model produces values. *)
 Definition ex_T : mat :=
